@@ -70,11 +70,12 @@ func TestMain(m *testing.M) {
 // ---- probes of findings (regressions and gates) ----------------------------
 
 type probeResult struct {
-	id         string
-	reproduces bool
-	what       string
-	cmds       [][]string
-	skipped    bool // could not be run (no server binary)
+	id          string
+	reproduces  bool
+	what        string
+	cmds        [][]string
+	skipped     bool // could not be run (no server binary)
+	observeOnly bool // recorded as a note, never as a violation
 }
 
 var (
@@ -149,6 +150,8 @@ func runProbes() {
 		pairProbe(idEvalErrOK, []string{"EVAL", "return tile38.error_reply('bad')", "0"}), pairProbe(idEvalErrOK, []string{"EVAL", "return tile38.call", "0"}))
 	// both are repaired (ee99fc4, 1823414): plain regression probes, nothing is excluded
 	probes = append(probes, mvtProbe())
+	probes = append(probes, polarProbes()...)
+	probes = append(probes, clientListTypedProbe())
 	probes = append(probes, crashProbe(idCrashNearbyBuffer, [][]string{{"SET", "k", "a", "POINT", "1", "2"}, {"NEARBY", "k", "BUFFER", "1", "POINT", "1", "2"}}))
 	exclNearbyBuffer = probes[len(probes)-1].reproduces
 	exclNonFinite = excl.nonFinite
@@ -242,6 +245,13 @@ func TestC17_Probes(t *testing.T) {
 	for _, p := range probeResults {
 		c.Case()
 		c.Label("probe:" + p.id)
+		if p.observeOnly {
+			if p.reproduces {
+				c.Label("observed:" + p.id)
+				c.Note("observed, not reported (%s): %s", p.id, p.what)
+			}
+			continue
+		}
 		if p.skipped {
 			c.Label("probe-skipped-no-server-binary:" + p.id)
 			c.Note("probe %s needs the server binary (checks.json server_bin); its input shape stays excluded", p.id)
